@@ -23,7 +23,9 @@ def main():
         ID, n = key.split('-')
         src = '/tmp/seed-%s-out' % ID
         if int(n) >= 7:  # fourth round: seeded/<ID>-7 and -8 come from /tmp/seed4-<ID>-out/{patch,demo,notes}{1,2}
-            src = '/tmp/seed4-%s-out' % ID
+            src = '/tmp/seed4-%s-out' % ID  # C02 C04 C05 C11 C14 C15 C17 C18 C19 C20
+            if not os.path.isdir(src):
+                src = '/tmp/seed5-%s-out' % ID  # the other ten properties (same round, launched later)
             n = str(int(n) - 6)
         elif int(n) >= 5:  # third round: seeded/<ID>-5 and -6 come from /tmp/seed3-<ID>-out/{patch,demo,notes}{1,2}
             src = '/tmp/seed3-%s-out' % ID
